@@ -170,6 +170,16 @@ func (m *Merger) Start() (ch <-chan *Merge, err error) {
 			return nil, fmt.Errorf("can't merge: primary key differs between versions")
 		}
 	}
+	if len(pk) == 0 {
+		// without a primary key a row is identified by all of its cells: rows of tables with
+		// different columns cannot be matched (the differ reports none of them, every base row
+		// would look removed and every row of that version would be dropped)
+		for _, t := range m.otherTs {
+			if !strSliceEqual(t.Columns, m.baseT.Columns) {
+				return nil, fmt.Errorf("can't merge: tables without a primary key must have the same columns")
+			}
+		}
+	}
 	mergeChan := make(chan *Merge)
 	diffs := make([]<-chan *objects.Diff, n)
 	progs := make([]progress.Tracker, n)
